@@ -72,6 +72,9 @@ type World struct {
 	cfg  RunConfig
 	// PanicClass is the violation class recorded when an actor panics.
 	PanicClass string
+	// ClassRewrite, when set, maps the class of every recorded violation (a scenario shared by
+	// several properties reports under the property it runs for).
+	ClassRewrite func(class string) string
 
 	mu       sync.Mutex
 	tasks    map[uint64]*Task
@@ -148,6 +151,9 @@ func (w *World) Now() time.Duration { return time.Since(w.start) }
 // Fail records a violation.
 func (w *World) Fail(class, format string, a ...interface{}) {
 	msg := fmt.Sprintf(format, a...)
+	if w.ClassRewrite != nil {
+		class = w.ClassRewrite(class)
+	}
 	w.mu.Lock()
 	w.viol = append(w.viol, Violation{Class: class, Msg: msg, Step: w.step})
 	w.mu.Unlock()
